@@ -5,6 +5,7 @@ use crate::tokrec::{Answer, Policy, PolicyState, RTok};
 
 pub mod entities;
 pub mod reftok;
+pub mod reftree;
 
 /// Receiver of reference-tokenizer output. Mirrors what html5ever's `TokenSink` can do.
 pub trait RefSink {
